@@ -13,7 +13,10 @@ text must be accepted, its model must have the same structure (classes,
 attribute names, list lengths, reference targets, primitive type tags and
 non-string values; strings equal up to letter case); values of attributes that
 are only ever assigned from ID or a regex literal must occur verbatim in the
-text they were read from, ID-only attributes must be identical in both.
+text they were read from, ID-only attributes must be identical in both; values
+of attributes only ever assigned from string literals must be the grammar's
+spelling and identical in both; every such value must be the value of a
+terminal of the text's own real parse tree.
 
 Model side (Lean, Drivers/Case.lean): the Arpeggio mirror runs on the *dumped
 real parser model*; string-token rows are computed by the Lean `StrMatch` model,
@@ -212,56 +215,70 @@ def grammar_lits(g):
     return out
 
 
-def text_rules(g):
-    """names of match rules whose value is always one piece of input text as written: the body is a regex literal,
-    ID, a reference to such a rule, or an ordered choice of those (no sequences: joined without the whitespace; no
-    string literals: grammar spelling; no other base types: converted)"""
+def value_rules(g):
+    """{match rule: (kinds, spellings)} for match rules whose value is always the value of ONE terminal: the body is a
+    regex literal / ID ("text": the input as written), a string literal ("lit": the grammar's spelling, whatever the
+    case of the input and whether it is matched by a StrMatch or, under autokwd, by a KeywordMatch), a reference to
+    such a rule, or an ordered choice of those"""
     bodies = {r["name"]: r["body"] for r in g["rules"]}
     memo = {}
 
     def atom(e, stack):
         if e.get("sup"):
-            return False
+            return None
         if e["k"] == "re":
-            return True
+            return {"text"}, []
+        if e["k"] == "str":
+            return {"lit"}, [e["v"]]
         if e["k"] == "ref":
-            return e["name"] == "ID" or rule(e["name"], stack)
+            return ({"text"}, []) if e["name"] == "ID" else rule(e["name"], stack)
         if e["k"] == "alt":
-            return all(atom(x, stack) for x in e["xs"])
-        return False
+            ks, sp = set(), []
+            for x in e["xs"]:
+                r = atom(x, stack)
+                if r is None:
+                    return None
+                ks |= r[0]
+                sp += r[1]
+            return ks, sp
+        return None
 
     def rule(n, stack):
         if n not in bodies or n in stack:
-            return False
+            return None
         if n not in memo:
             memo[n] = atom(bodies[n], stack | {n})
         return memo[n]
 
-    return {n for n in bodies if rule(n, frozenset())}
+    return {n: rule(n, frozenset()) for n in bodies if rule(n, frozenset()) is not None}
 
 
 def textual_attrs(g):
-    """{rule: {attr: "id"|"text"}}: attributes only ever assigned (=, +=, *=) from ID ("id") or from ID / a regex
-    literal / a text-valued match rule ("text") inside that rule's body"""
+    """{rule: {attr: kind}} for attributes only ever assigned (=, +=, *=) from sources whose value is the value of one
+    terminal: "id" (only ID), "text" (ID / a regex literal / a text-valued match rule: the input as written),
+    {"lit": [spellings]} (only string literals, directly or through a match rule that is a choice of string literals:
+    the grammar's spelling), {"mixed": [spellings]} (both kinds)"""
     res = {}
-    trules = text_rules(g)
+    vrules = value_rules(g)
     for r in g["rules"]:
-        kinds = {}
+        kinds, spell = {}, {}
 
         def f(e):
             if e["k"] == "asgn":
                 rhs = e["rhs"]
-                if e["op"] == "?=":
-                    k = "other"
-                elif rhs["k"] == "ref" and rhs["name"] == "ID" and not rhs.get("sup"):
-                    k = "id"
-                elif rhs["k"] == "re" and not rhs.get("sup"):
-                    k = "text"
-                elif rhs["k"] == "ref" and rhs["name"] in trules and not rhs.get("sup"):
-                    k = "text"
-                else:
-                    k = "other"
-                kinds.setdefault(e["attr"], set()).add(k)
+                ks, sp = {"other"}, []
+                if e["op"] == "?=" or rhs.get("sup"):
+                    pass
+                elif rhs["k"] == "ref" and rhs["name"] == "ID":
+                    ks = {"id"}
+                elif rhs["k"] == "re":
+                    ks = {"text"}
+                elif rhs["k"] == "str":
+                    ks, sp = {"lit"}, [rhs["v"]]
+                elif rhs["k"] == "ref" and rhs["name"] in vrules:
+                    ks, sp = vrules[rhs["name"]]
+                kinds.setdefault(e["attr"], set()).update(ks)
+                spell.setdefault(e["attr"], []).extend(sp)
         walk_ast(r["body"], f)
         m = {}
         for a, ks in kinds.items():
@@ -269,6 +286,10 @@ def textual_attrs(g):
                 m[a] = "id"
             elif ks <= {"id", "text"}:
                 m[a] = "text"
+            elif ks == {"lit"}:
+                m[a] = {"lit": sorted(set(spell[a]))}
+            elif ks <= {"id", "text", "lit"}:
+                m[a] = {"mixed": sorted(set(spell[a]))}
         if m:
             res[r["name"]] = m
     return res
@@ -353,11 +374,30 @@ def simple_grammar(rng):
     rx, samples = rng.choice([r for r in RES20 if r[0] != r"q?"])
     sepre = rng.choice([r"and", r"[xy]"])
     form = rng.below(5)
+    if rng.fork("form5").chance(0.25):
+        form = 5
     if form == 0:
         gtext = f"Model: {G.q(kw)} a=/{rx}/ n=ID k={G.q(kw2)};\n"
         toks = [kw, rng.choice(samples), rng.choice(["foo", "Bar"]), kw2]
         lits = [("str", kw), ("re", rx), ("str", kw2)]
-        textual = {"Model": {"a": "text", "n": "id"}}
+        textual = {"Model": {"a": "text", "n": "id", "k": {"lit": [kw2]}}}
+    elif form == 5:
+        # string literals as the right-hand side of assignments (directly, as alternatives, through a match rule
+        # that is a choice of literals, in a list): their value is the grammar's spelling, whatever the input's case
+        r5 = rng.fork("f5")
+        kw3, kw4 = literal(r5, 0.8), literal(r5, 0.8)
+        gtext = (f"Model: members+=Member;\n"
+                 f"Member: (vis={G.q(kw)} | vis={G.q(kw2)}) mods*=Mod name=ID ':' type=/{rx}/ (tags+={G.q(kw3)}[','])? ';';\n"
+                 f"Mod: {G.q(kw3)} | {G.q(kw4)};\n")
+        toks = []
+        for n in r5.sample(["Foo", "barBaz", "q"], r5.randint(1, 2)):
+            toks += [r5.choice([kw, kw2])] + r5.sample([kw3, kw4], r5.randint(0, 2)) + [n, ":", rng.choice(samples)]
+            if r5.chance(0.4):
+                toks += [kw3] + ([",", kw3] if r5.chance(0.5) else [])
+            toks.append(";")
+        lits = [("str", kw), ("str", kw2), ("str", kw3), ("str", kw4), ("re", rx), ("str", ":"), ("str", ","), ("str", ";")]
+        textual = {"Member": {"vis": {"lit": sorted({kw, kw2})}, "mods": {"lit": sorted({kw3, kw4})}, "name": "id",
+                              "type": "text", "tags": {"lit": [kw3]}}}
     elif form == 1:
         gtext = f"Model: xs+=X[/{sepre}/] {G.q(kw)};\nX: v=/{rx}/ | {G.q(kw2)} v=INT;\n"
         s = {"and": ["and"], "[xy]": ["x", "y"]}[sepre]
@@ -379,7 +419,8 @@ def simple_grammar(rng):
         toks = [kw, "Foo", "=", rng.choice(samples), ";", kw, "bar", ";", kw, "q", "=", kw2, ";"]
         lits = [("str", kw), ("str", "="), ("str", ";"), ("re", rx), ("str", kw2)]
         textual = {"Item": {"name": "id"}}
-    toks = [restyle(t, rng) if t in (kw, kw2) or t in samples else t for t in toks]
+    words = (kw, kw2) + ((kw3, kw4) if form == 5 else ())
+    toks = [restyle(t, rng) if t in words or t in samples else t for t in toks]
     texts = [" ".join(toks)]
     if rng.chance(0.5):
         from harness import gen_grammar
@@ -424,6 +465,8 @@ def add_history(case, rng):
             cfg["ignore_case"] = not cfg.get("ignore_case")
         if kind in ("flip_kwd", "both"):
             cfg["autokwd"] = not cfg.get("autokwd")
+        if r.fork("grp").chance(0.25):
+            cfg["use_regexp_group"] = not cfg.get("use_regexp_group")
         e = {"cfg": cfg, "texts": list(case["texts"][:1])}
         if r.chance(0.3):
             vg = vocabulary_grammar(case.get("lits") or [], r.fork("voc"))
@@ -883,7 +926,8 @@ def run_one(mm, nodes, objs, text, mirror=True):
         tree = None
     if tree is not None:
         tj = peg.tree_json(tree, ids) if mirror else None
-        vals, spans = [], []
+        vals, spans, mvals = [], [], []
+        grp1 = bool(getattr(mm, "use_regexp_group", False))
 
         def fix(t, node):
             if t and t[0] == "t":
@@ -897,6 +941,13 @@ def run_one(mm, nodes, objs, text, mirror=True):
             if isinstance(node, Terminal):
                 vals.append(node.value)
                 rule = node.rule
+                mvals.append(node.value)
+                if grp1 and match_kind(rule) == "re" and rule.regex.groups == 1:
+                    # use_regexp_group: a regex literal with exactly one group yields the group (measured on the
+                    # compiled regex itself, not taken from the terminal)
+                    m1 = rule.regex.match(text, node.position)
+                    if m1 is not None and m1.group(1) is not None:
+                        mvals.append(m1.group(1))
                 lit = isinstance(rule, Match) and match_kind(rule) != "other" and not any(rule is b for b in base)
                 if lit and len(node.value):
                     spans.append([node.position, node.position + len(node.value)])
@@ -910,6 +961,7 @@ def run_one(mm, nodes, objs, text, mirror=True):
         d["parse"] = {"ok": tj}
         d["vals"] = vals
         d["spans"] = spans
+        d["mvals"] = sorted(set(v for v in mvals if isinstance(v, str)))
 
     def do_load():
         return dump_model(mm.model_from_str(text))
@@ -1031,6 +1083,33 @@ def text_values(dump, textual):
     return out
 
 
+def value_failure(d, textual):
+    """failure of one accepted text on its own: every value of an attribute whose sources are single terminals is
+    (a) the value of a terminal of the real parse tree of that text (Terminal.value: the grammar's spelling for string
+    literals incl. keyword matches, the input as written otherwise - what `termValue` / C20_values_keep_case are
+    tied to; the first group under use_regexp_group), (b) for attributes only assigned from string literals one of
+    the grammar's spellings, (c) for ID / regex attributes a piece of the input as written"""
+    if not textual or "ok" not in d["load"]:
+        return None
+    tvals = set(d["mvals"]) if "mvals" in d else None
+    for p, k, a in text_values(d["load"]["ok"], textual):
+        if a == "":
+            continue  # the default of an attribute that was not assigned on this path (or an empty regex match)
+        if isinstance(k, dict) and "lit" in k:
+            if a not in k["lit"]:
+                return (f"value {a!r} at {p} (only ever assigned from the string literals {k['lit']}) is not the "
+                        f"grammar's spelling, text {d['text']!r}")
+        elif isinstance(k, dict):
+            if a not in k["mixed"] and a not in d["text"]:
+                return f"value {a!r} at {p} is neither a literal of {k['mixed']} nor the text as written in {d['text']!r}"
+        elif a not in d["text"]:
+            return f"value {a!r} at {p} is not the text as written in {d['text']!r}"
+        if tvals is not None and a not in tvals:
+            return (f"value {a!r} at {p} is not the value of any terminal of the parse tree of {d['text']!r} "
+                    f"(terminal values {sorted(tvals)[:12]})")
+    return None
+
+
 def pair_failure(x, y, textual):
     """property failure for an accepted text x and a variant y of its literal-matched characters, or None"""
     if y["load"].get("other") == "Timeout":
@@ -1045,17 +1124,15 @@ def pair_failure(x, y, textual):
         for (p, k, a), (_, _, b) in zip(vx, vy):
             if k == "id" and a != b:
                 return f"ID value at {p} changed with the case of literal text: {a!r} vs {b!r}"
-            if b not in y["text"]:
-                return f"value {b!r} at {p} is not the text as written in {y['text']!r}"
+            if isinstance(k, dict) and "lit" in k and a != b:
+                return (f"variant {y['text']!r} of {x['text']!r} changes the model: value of the string literal at "
+                        f"{p} is {a!r} vs {b!r}")
+        return value_failure(y, textual)
     return None
 
 
 def self_failure(x, textual):
-    if textual and "ok" in x["load"]:
-        for p, k, a in text_values(x["load"]["ok"], textual):
-            if a not in x["text"]:
-                return f"value {a!r} at {p} is not the text as written in {x['text']!r}"
-    return None
+    return value_failure(x, textual)
 
 
 class Prop(Check):
@@ -1094,7 +1171,10 @@ class Prop(Check):
             "separators, written with either quote and with escape sequences (\\\\ \\' \\\" \\n \\t \\xNN \\uNNNN "
             "\\UNNNNNNNN octal); regex literals with letters, escaped slashes, backslashes; targeted: keyword/regex/"
             "separator/ID templates; definitions + references through ID; the templates also as multi-file grammars "
-            "(import)) compiled with ignore_case=True x autokwd / skipws / ws / memoization options x HISTORIES (28 % of the "
+            "(import), a template with string literals as right-hand sides of assignments (=, alternatives, += with "
+            "separator, *= through a match rule that is a choice of literals)) compiled with ignore_case=True x autokwd / "
+            "skipws / ws / memoization options x model-construction options use_regexp_group (35 %) / "
+            "auto_init_attributes=False (8 %) x HISTORIES (28 % of the "
             "cases: 1-2 meta-models constructed and used earlier in the same process and / or one constructed after the "
             "meta-model under test and before its texts are parsed - the same grammar or another grammar with the same "
             "literals, with ignore_case and / or autokwd flipped; every case starts from the process state of a fresh "
@@ -1137,6 +1217,12 @@ class Prop(Check):
                 cfg["autokwd"] = True
             if r.chance(0.25):
                 cfg["memoization"] = True
+            # configurations of the model construction (tree -> objects): the values the model gets from terminals
+            rc = r.fork("mmcfg")
+            if rc.chance(0.35):
+                cfg["use_regexp_group"] = True
+            if rc.chance(0.08):
+                cfg["auto_init_attributes"] = False
             yield self.make_case(r, stream, cfg, tier, p_history=1.0 if hist else 0.0)
 
     @staticmethod
@@ -1521,6 +1607,21 @@ class Prop(Check):
                                          if sum(1 for d in g["ys"] if not d["wild"]) in (1, 3, 7, 15, 31, 63)),
                 "streams": {s: sum(1 for c in cases if c.get("stream") == s) for s in ("random", "simple", "link", "corpus")},
                 "autokwd_cases": sum(1 for c in cases if c["cfg"].get("autokwd")),
+                "use_regexp_group_cases": sum(1 for c in cases if c["cfg"].get("use_regexp_group")),
+                "autokwd_and_use_regexp_group_cases": sum(1 for c in cases if c["cfg"].get("use_regexp_group")
+                                                          and c["cfg"].get("autokwd") and c["cfg"].get("ignore_case")),
+                "auto_init_attributes_off_cases": sum(1 for c in cases if c["cfg"].get("auto_init_attributes") is False),
+                "cases_with_literal_valued_attributes": sum(
+                    1 for c in cases if any(isinstance(k, dict) for m in (c.get("textual") or {}).values()
+                                            for k in m.values())),
+                "literal_attribute_values_checked": sum(
+                    1 for c, o in zip(cases, obs) for g in o.get("groups", []) for d in [g["x"]] + g["ys"]
+                    if "ok" in d["load"] for _p, k, _v in text_values(d["load"]["ok"], c.get("textual") or {})
+                    if isinstance(k, dict)),
+                "attribute_values_tied_to_tree_terminals": sum(
+                    1 for c, o in zip(cases, obs) for g in o.get("groups", []) for d in [g["x"]] + g["ys"]
+                    if "ok" in d["load"] and "mvals" in d
+                    for _ in text_values(d["load"]["ok"], c.get("textual") or {})),
                 "autokwd_off_models": sum(1 for o in obs if o.get("off")),
                 "autokwd_off_errors": sorted({o["off_error"] for o in obs if o.get("off_error")})[:5],
                 "texts_parsed_with_and_without_autokwd": sum(1 for g in groups for d in [g["x"]] + g["ys"]
@@ -1558,6 +1659,8 @@ class Prop(Check):
             cfg = {"ignore_case": True}
             if r.chance(0.5):
                 cfg["autokwd"] = True
+            if r.fork("mmcfg").chance(0.5):
+                cfg["use_regexp_group"] = True
             case = self.make_case(r, "simple", cfg, tier, p_history=0.5)
             case["nvar"] = 6
             yield case
